@@ -683,6 +683,143 @@ Section XmlOracles.
     | _, _ => false
     end.
 
+  (* ------------------------------------------------------------------ pugixml's tokenisation (third party, mirrored)
+
+     These three functions are the tokeniser the reference syntax JxXmlSpec.v had before it was made strict about the
+     prolog, the epilog and the XML declaration.  pugixml is lenient in exactly those places (character data, CDATA and
+     references are tolerated around the document element and are dropped; the values of the declaration are read like
+     attribute values), so its model keeps them.  No theorem is stated about them: px_parse is compared with pugixml on
+     every run. *)
+  Fixpoint px_lex_attrs (fuel : nat) (decl : bool) (s : list N) (acc : list (list N * list N))
+    : option (list (list N * list N) * tagend * list N) :=
+    match fuel with
+    | O => None
+    | S f =>
+      let (w, s1) := span is_xws s in
+      match s1 with
+      | c :: r =>
+        if negb decl && (c =? 62) then Some (rev acc, EndTag, r)
+        else if negb decl && (c =? 47) then match r with c2 :: r2 => if c2 =? 62 then Some (rev acc, EndEmpty, r2) else None | [] => None end
+        else if decl && (c =? 63) then match r with c2 :: r2 => if c2 =? 62 then Some (rev acc, EndDecl, r2) else None | [] => None end
+        else
+          match w with
+          | [] => None                                      (* white space is required before an attribute *)
+          | _ :: _ =>
+            match lex_name s1 with
+            | None => None
+            | Some (n, r1) =>
+              match skip_ws r1 with
+              | e :: r2 =>
+                if e =? 61 then
+                  match skip_ws r2 with
+                  | q :: r3 =>
+                    if (q =? 34) || (q =? 39) then
+                      match lex_attval q None [] r3 with
+                      | Some (v, r4) => if has_key n acc then None else px_lex_attrs f decl r4 ((n, v) :: acc)
+                      | None => None
+                      end
+                    else None
+                  | [] => None
+                  end
+                else None
+              | [] => None
+              end
+            end
+          end
+      | [] => None
+      end
+    end.
+
+
+  Fixpoint pxlex (fuel : nat) (s : list N) : xlres :=
+    match fuel with
+    | O => XLFuel
+    | S f =>
+      match s with
+      | [] => XLOk []
+      | c :: r =>
+        if c =? 60 then
+          match r with
+          | [] => XLErr
+          | c1 :: r1 =>
+            if c1 =? 47 then                                               (* ETag ::= '</' Name S? '>' *)
+              match lex_name r1 with
+              | Some (n, r2) => match skip_ws r2 with
+                                | e :: r3 => if e =? 62 then xlcons (XClose n) (pxlex f r3) else XLErr
+                                | [] => XLErr
+                                end
+              | None => XLErr
+              end
+            else if c1 =? 63 then                                          (* PI ::= '<?' PITarget (S ...)? '?>' *)
+              match lex_name r1 with
+              | Some (n, r2) =>
+                if is_xml_target n then XLErr
+                else
+                  match r2 with
+                  | c2 :: _ =>
+                    if is_xws c2 || starts [63; 62] r2 then
+                      match scan_until [63; 62] r2 with Some (_, r3) => pxlex f r3 | None => XLErr end
+                    else XLErr
+                  | [] => XLErr
+                  end
+              | None => XLErr
+              end
+            else if c1 =? 33 then
+              match strip_prefix [45; 45] r1 with
+              | Some r2 =>                                                 (* Comment: no "--" inside *)
+                match scan_until [45; 45] r2 with
+                | Some (_, e :: r3) => if e =? 62 then pxlex f r3 else XLErr
+                | _ => XLErr
+                end
+              | None =>
+                match strip_prefix [91; 67; 68; 65; 84; 65; 91] r1 with   (* CDSect *)
+                | Some r2 =>
+                  match scan_until [93; 93; 62] r2 with
+                  | Some ([], r3) => pxlex f r3
+                  | Some (t, r3) => xlcons (XTxt t) (pxlex f r3)
+                  | None => XLErr
+                  end
+                | None => XLErr                                            (* DOCTYPE etc.: outside the subset *)
+                end
+              end
+            else                                                           (* STag / EmptyElemTag *)
+              match lex_name r with
+              | Some (n, r2) =>
+                match px_lex_attrs f false r2 [] with
+                | Some (a, EndTag, r3) => xlcons (XOpen n a) (pxlex f r3)
+                | Some (a, EndEmpty, r3) => xlcons (XEmpty n a) (pxlex f r3)
+                | _ => XLErr
+                end
+              | None => XLErr
+              end
+          end
+        else
+          match lex_text None [] s with
+          | Some (t, r') => xlcons (XTxt t) (pxlex f r')
+          | None => XLErr
+          end
+      end
+    end.
+
+
+  Definition px_split_decl (s : list N) : option (option (list (list N * list N)) * list N) :=
+    match strip_prefix [60; 63; 120; 109; 108] s with
+    | Some r =>
+      match r with
+      | c :: _ =>
+        if is_xws c then
+          match px_lex_attrs (S (length r)) true r [] with
+          | Some (a, EndDecl, r') => if decl_ok a then Some (Some a, r') else None
+          | _ => None
+          end
+        else Some (None, s)               (* a processing instruction such as <?xml-stylesheet ..?> *)
+      | [] => None
+      end
+    | None => Some (None, s)
+    end.
+
+
+
   (* ---------------------------------------------------------------- what pugixml hands to the adapter *)
 
   (* parse_default | parse_ws_pcdata_single: white-space-only character data is dropped unless it is directly followed
@@ -706,10 +843,10 @@ Section XmlOracles.
 
   Definition px_parse (s0 : list N) : xres :=
     let s := norm_eol s0 in
-    match split_decl s with
+    match px_split_decl s with
     | None => XErr
     | Some (_, s1) =>
-      match xlex (S (length s1)) s1 with
+      match pxlex (S (length s1)) s1 with
       | XLErr => XErr
       | XLFuel => XFuel
       | XLOk ts =>
